@@ -43,3 +43,51 @@ pub fn with_watched_fifo<T>(f: impl FnOnce(&str) -> T) -> Result<(T, bool), Stri
     let _ = std::fs::remove_file(&path);
     Ok((r, opened.load(Ordering::SeqCst)))
 }
+
+/// Create a FIFO that delivers `bytes` to whoever opens it for reading, run `f(path)`, and
+/// report whether it was opened at all. The feeder never blocks for good: it polls for a
+/// reader and gives up when `f` has returned.
+pub fn with_fed_fifo<T>(bytes: Vec<u8>, f: impl FnOnce(&str) -> T) -> Result<(T, bool), String> {
+    let path = tmp_dir().join(format!("feed-{}", SEQ.fetch_add(1, Ordering::Relaxed)));
+    let cpath = std::ffi::CString::new(path.to_str().unwrap()).unwrap();
+    if unsafe { libc::mkfifo(cpath.as_ptr(), 0o600) } != 0 {
+        return Err(format!("mkfifo {} failed", path.display()));
+    }
+    let cancel = Arc::new(AtomicBool::new(false));
+    let opened = Arc::new(AtomicBool::new(false));
+    let feeder = {
+        let (cancel, opened, cpath) = (cancel.clone(), opened.clone(), cpath.clone());
+        std::thread::spawn(move || {
+            let fd = loop {
+                let fd = unsafe { libc::open(cpath.as_ptr(), libc::O_WRONLY | libc::O_NONBLOCK) };
+                if fd >= 0 {
+                    break fd;
+                }
+                if cancel.load(Ordering::SeqCst) {
+                    return;
+                }
+                std::thread::sleep(std::time::Duration::from_micros(100));
+            };
+            opened.store(true, Ordering::SeqCst);
+            // blocking writes from here on (EPIPE when the reader goes away)
+            unsafe {
+                let fl = libc::fcntl(fd, libc::F_GETFL);
+                libc::fcntl(fd, libc::F_SETFL, fl & !libc::O_NONBLOCK);
+            }
+            let mut off = 0;
+            while off < bytes.len() {
+                let n = unsafe { libc::write(fd, bytes[off..].as_ptr() as *const libc::c_void, bytes.len() - off) };
+                if n <= 0 {
+                    break;
+                }
+                off += n as usize;
+            }
+            unsafe { libc::close(fd) };
+        })
+    };
+    let r = f(path.to_str().unwrap());
+    cancel.store(true, Ordering::SeqCst);
+    let _ = feeder.join();
+    let _ = std::fs::remove_file(&path);
+    Ok((r, opened.load(Ordering::SeqCst)))
+}
